@@ -46,6 +46,7 @@ fn cmd_sim(args: &[String]) -> i32 {
             "long" => gen::gen_long(seed, n),
             "unpriv" => gen::gen_unpriv(seed, n),
             "grow" => gen::gen_grow(seed, n),
+            "tcp" => gen::gen_tcp(seed, n),
             f => {
                 eprintln!("unknown family {f}");
                 return 2;
